@@ -2,19 +2,35 @@
 From Orbit Require Import Spec.Statements Proofs.WritersProofs.
 
 (** With an atomic write path (append + persist of [_localHeads] + view update form one
-    critical section; the repaired tree): for every number of writers and every schedule,
-    once all writers have returned, the acknowledged entries are pairwise distinct, there
-    is one per writer, all of them are in the log, the log holds exactly those, the view
-    covers the whole log, and recovery from the cached head restores all of them. *)
+    critical section; the repaired tree): for every number of writer threads, every number
+    of single-entry writes per thread (a multi-entry call such as [PutBatch], or a sequence
+    of calls issued by one goroutine, is a thread that performs several writes one after the
+    other, and other threads' writes may come in between) and every schedule, once all
+    threads have returned, the acknowledged entries are pairwise distinct, there is one per
+    write, all of them are in the log, the log holds exactly those, the view covers the whole
+    log, recovery from the cached head restores all of them, and every thread was
+    acknowledged as many entries as it made writes, in append order. *)
 Theorem C17_all_recorded :
+  forall counts sched,
+    let s := wrun true sched (winitc counts) in
+    all_done s ->
+    NoDup (returned s) /\ length (returned s) = list_sum counts /\
+    (forall e, In e (returned s) -> (1 <= e <= w_log s)%nat) /\
+    w_log s = list_sum counts /\ w_view s = w_log s /\ recovered s = w_log s /\
+    Forall2 (fun a c => length a = c /\ StronglySorted lt a) (acks s) counts.
+Proof. exact writers_atomic. Qed.
+Print Assumptions C17_all_recorded.
+
+(** The instance with one write per thread ([n] concurrent single writes). *)
+Theorem C17_all_recorded_single :
   forall n sched,
     let s := wrun true sched (winit n) in
     all_done s ->
     NoDup (returned s) /\ length (returned s) = n /\
     (forall e, In e (returned s) -> (1 <= e <= w_log s)%nat) /\
     w_log s = n /\ w_view s = w_log s /\ recovered s = w_log s.
-Proof. exact writers_atomic. Qed.
-Print Assumptions C17_all_recorded.
+Proof. exact writers_atomic_single. Qed.
+Print Assumptions C17_all_recorded_single.
 
 (** The pinned commit (only the append is atomic) can persist heads out of order: there is
     a schedule after which every writer has returned but recovery from the cached head
@@ -32,3 +48,14 @@ Theorem C17_refuted_view :
   exists n sched, let s := wrun false sched (winit n) in all_done s /\ (w_view s < w_log s)%nat.
 Proof. exact writers_refuted_view. Qed.
 Print Assumptions C17_refuted_view.
+
+(** Without the critical section a thread in the middle of a multi-entry call loses a write
+    acknowledged to another thread: there is a run with a thread of two or more writes after
+    which everybody has returned and recovery restores fewer entries than the log holds
+    (witness: T0 writes 1, appends 2; T1 appends 3, persists it and returns; T0 persists 2). *)
+Theorem C17_refuted_batch :
+  exists counts sched,
+    let s := wrun false sched (winitc counts) in
+    all_done s /\ (exists c, In c counts /\ (2 <= c)%nat) /\ (recovered s < w_log s)%nat.
+Proof. exact writers_refuted_batch. Qed.
+Print Assumptions C17_refuted_batch.
